@@ -186,17 +186,6 @@ impl VM {
                 }};
             }
             #[allow(unused_unsafe)]
-            macro_rules! reg_ref {
-                ($idx:expr) => {{
-                    let idx = $idx;
-                    check_reg!(idx);
-                    #[cfg(vbxq_aelys_lang_verif)]
-                    verif_reg!(crate::verif_sites::REG_RD, idx);
-                    // SAFETY: bounds checked above
-                    unsafe { &*regs_ptr.add(idx) }
-                }};
-            }
-            #[allow(unused_unsafe)]
             macro_rules! reg_set {
                 ($idx:expr, $val:expr) => {{
                     let idx = $idx;
